@@ -260,7 +260,10 @@ def run_property(prop_id, tier, seed, replay=None):
 
     with Lock():
         ok_regen, regen_out = regen()
-        ok_make, make_out, make_dt = make(["theories/Props/%s.vo" % prop_id] + ["theories/%s.vo" % m.replace(".", "/") for m in P.exec_modules])
+        # the executable model first (needed to search for a failing input even when a proof obligation breaks), then the theorems
+        ok_exec, exec_out, exec_dt = make(["theories/%s.vo" % m.replace(".", "/") for m in P.exec_modules])
+        ok_make, make_out, make_dt = make(["theories/Props/%s.vo" % prop_id])
+        make_dt += exec_dt
     bad = forbidden_scan()
     if ok_make:
         discharged, failed, axioms, audit_out = audit(prop_id, P.theorems)
@@ -289,7 +292,7 @@ def run_property(prop_id, tier, seed, replay=None):
         if not fixed:
             log("replay file names no concrete case (%s); running the normal check" % det.get("broken"))
             fixed = None
-    corr = P.correspondence(rng, tier, coq_eval, model_available=P.model_available(ok_make, make_out), fixed_cases=fixed)
+    corr = P.correspondence(rng, tier, coq_eval, model_available=P.model_available(ok_exec, exec_out), fixed_cases=fixed)
     # corr: dict(evaluations, distinct_nontrivial, rule, samples, histogram, mismatches=[...], prop_failures=[...])
 
     known = [k for k in load_known() if k.get("property") == prop_id and k.get("status") == "known"]
